@@ -1,13 +1,13 @@
 #!/usr/bin/env python3
 import json
 props = {
- "C01": ("exploration", "7 C01", "seeded search over simulated runs: generated client/handler scripts (1-3 concurrent RPCs per channel, all four kinds, both transports, message contents incl. empty/zero-length/64KiB/MiB/maps/Any), PRNG-chosen interleavings of sender, receiver and the library's own goroutines, byte-level fragmentation of the HTTP wire; oracle: received sequence is at every moment a prefix of the sent one, equal message by message, complete at a clean end; profile c01f adds cancels, deadlines and connection cuts"),
- "C02": ("exploration", "7 C02", "seeded search: handlers return every canonical and out-of-range code, all message classes, details, plain/context/io.EOF errors, placed before/between/after responses; unencodable responses; connection cuts (clean/reset) at scheduler-chosen byte offsets in profile c02f; oracle: undisturbed call -> exact status through status.Convert; always: success only if the handler returned nil and everything arrived"),
- "C03": ("exploration", "7 C03", "seeded search over orders of SetHeader/SendHeader/SendMsg/SetTrailer/return vs Header()/RecvMsg/Trailer(), duplicated grpc.Header/grpc.Trailer options, '-bin' values with arbitrary bytes, handler re-using its metadata objects afterwards, cancels between frames; model of expected headers/trailers from the recorded handler calls"),
- "C04": ("exploration", "7 C04", "cancel placed at a drawn scheduler step (any point of the call), deadlines on the virtual clock fired at a drawn step, select choices between ready channel and ctx.Done() drawn from the tape; oracle: every client receive/unary call returning after the context ended yields the complete real result or a status with the matching code; promptness checked with clock and network frozen; handler context cancellation"),
- "C05": ("exploration", "7 C05", "adversarial scripts (handler returns early, CloseSend racing SendMsg from two goroutines, operations after completion, sender/receiver goroutines, cancels); global deadlock detection at quiescence, panic capture in every actor and library goroutine, goroutine census after the end-of-run protocol"),
- "C06": ("exploration", "7 C06", "in-process only, all cloner configurations with a recording wrapper, pre-filled destinations, peer mutation at later steps, early return by cancel; structural walk for shared backing memory at every receive, behavioural re-check of received objects, recording cloner detects reads of the caller's message after the call returned"),
- "C07": ("fault_enumeration", "7 C07", "complete enumeration of every cut offset (clean and abrupt ending) of a fixed corpus of replies x 3 stream kinds through the RoundTripper seam, adversarial size prefaces with allocation metering, then seeded random replies/cuts/garbage; server-side decoder fed by the raw peer (profile c11) and real-path cuts by simnet (c01f/c02f)"),
+ "C01": ("exploration", "7 C01", "seeded search over simulated runs: generated client/handler scripts (1-3 concurrent RPCs per channel, all four kinds, both transports, message contents incl. empty/zero-length/64KiB/MiB/maps/Any), PRNG-chosen interleavings of sender, receiver and the library's own goroutines, byte-level fragmentation of the HTTP wire; oracle: received sequence is at every moment a prefix of the sent one, equal message by message, complete at a clean end; profile c01f adds cancels, deadlines and connection cuts at drawn steps; profile wcut enumerates a connection loss at every byte offset of reply and request (FIN and RST) of generated single-call HTTP programs on the real net/http path"),
+ "C02": ("exploration", "7 C02", "seeded search: handlers return every canonical and out-of-range code, all message classes, details, plain/context/io.EOF errors, placed before/between/after responses; unencodable responses; connection cuts (clean/reset) at scheduler-chosen byte offsets in profile c02f; oracle: undisturbed call -> exact status through status.Convert; always: success only if the handler returned nil and everything arrived; profile wcut: connection loss at every byte offset of the reply on the real net/http path, a reply cut before the end of its trailer frame is never success"),
+ "C03": ("exploration", "7 C03", "seeded search over orders of SetHeader/SendHeader/SendMsg/SetTrailer/return vs Header()/RecvMsg/Trailer(), duplicated grpc.Header/grpc.Trailer options, '-bin' values with arbitrary bytes, handler re-using its metadata objects afterwards, cancels between frames (profile c04e: at every step index of each program's baseline schedule); model of expected headers/trailers from the recorded handler calls"),
+ "C04": ("exploration", "7 C04", "cancel placed at a drawn scheduler step (any point of the call), deadlines on the virtual clock fired at a drawn step, select choices between ready channel and ctx.Done() drawn from the tape; oracle: every client receive/unary call returning after the context ended yields the complete real result or a status with the matching code; promptness checked with clock and network frozen; handler context cancellation; profile c04e: complete enumeration of the step index at which each call is cancelled / its deadline passes, per program and baseline schedule; profile c04gc: forced garbage collection (finalizers) while a receive is pending"),
+ "C05": ("exploration", "7 C05", "adversarial scripts (handler returns early, CloseSend racing SendMsg from two goroutines, operations after completion, sender/receiver goroutines, cancels); global deadlock detection at quiescence, panic capture in every actor and library goroutine, goroutine census after the end-of-run protocol; also after a connection loss at every byte offset (wcut) and a cancel at every step (c04e)"),
+ "C06": ("exploration", "7 C06", "in-process only, all cloner configurations with a recording wrapper, pre-filled destinations, peer mutation at later steps, early return by cancel; structural walk for shared backing memory at every receive, behavioural re-check of received objects, recording cloner detects reads of the caller's or handler's message after the send/call that handed it over returned; mutations on all four object classes, re-check of everything sent and received at the end of each script; cancel at every step (c04e)"),
+ "C07": ("fault_enumeration", "7 C07", "complete enumeration of every cut offset (clean and abrupt ending) of a fixed corpus of replies x 3 stream kinds through the RoundTripper seam, adversarial size prefaces with allocation metering, then seeded random replies/cuts/garbage; profile wcut: connection loss at every byte offset on the real net/http path (chunked encoding in play) with the wire-level clause 'cut before the end of the trailer frame is never success'; profile c11: server-side decoder fed arbitrary request bodies by the raw peer, judged against a reference frame reader"),
  "C08": ("exploration", "7 C08", "unary and client-streaming handlers producing 0,1,2..n responses with nil or error status, the extra response scheduled before/during/after the client's receive; over HTTP 0/1/2+ request frames to single-request methods via the raw peer (profile c11)"),
  "C09": ("exploration", "7 C09", "client deadlines log-uniform from 10us to ~200 years with scheduler-chosen transit delay on the virtual clock (two-sided exact bounds); raw peer sending GRPC-Timeout strings: every unit x 1-8 digits, over-long, huge, zero, negative, malformed"),
  "C10": ("exploration", "7 C10", "configuration search executed in simulated runs: caller context values under struct/pointer/string keys, outgoing metadata, credentials, deadlines, transport interceptors; schedule-dependent parts: caller re-using its metadata object while the call is in flight (incl. early return on cancel), nested calls from inside handlers on all three carriers"),
@@ -31,7 +31,7 @@ for pid,(lvl,ref,txt) in props.items():
         "engine": "sim",
         "level_claimed": {"category": lvl, "text": txt, "design_ref": "DESIGN.md section " + ref},
         "level_note": notes,
-        "technique": "deterministic simulation with fault injection: seeded search over simulated runs (scheduler-owned goroutine interleaving, select choice, virtual clock, in-memory network with fragmentation/cuts), history oracles, minimised replay files" + ("; complete enumeration of cut offsets for a fixed corpus" if pid=="C07" else ""),
+        "technique": "deterministic simulation with fault injection: seeded search over simulated runs (scheduler-owned goroutine interleaving, select choice, virtual clock, in-memory network with fragmentation/cuts), history oracles, minimised replay files" + ("; complete enumeration of cut offsets for a fixed corpus and, per generated program, of every wire offset on the real net/http path" if pid=="C07" else "")+("; complete enumeration of cancel/deadline step positions per program and baseline schedule" if pid in ("C04","C03","C05","C06") else "")+("; complete enumeration of connection-loss byte offsets per program" if pid in ("C01","C02","C05") else ""),
     })
 m = {
  "version": 1,
@@ -50,7 +50,7 @@ m = {
   {"property_id": "C18", "reason": "cloner adapters are pure functions of their arguments; the schedule-dependent part (aliasing through live RPCs) is C06 (DESIGN.md section 8)"},
   {"property_id": "C19", "reason": "protoc plugin is a batch pure function from CodeGeneratorRequest to response; nothing to schedule or fail (DESIGN.md section 8)"}
  ],
- "notes": "exit 0 held / 1 VIOLATION (minimised, replay-verified in a fresh process) / 2 cannot decide (build, worker crash, non-replayable). Known findings: /verif/known_findings.json. VERIF_SEED selects the seed block; VERIF_BUDGET_S overrides the per-worker search budget."
+ "notes": "VERIF_REPO=<dir> checks another checkout instead of /repo, VERIF_EVIDENCE_DIR=<dir> redirects evidence and replay files (both used for seeded-change trials only). Self-tests: tools/selftest.sh (instrumented suite, determinism), tools/calibrate.sh (oracles vs grpc-go), tools/seeded_regress.sh (kept seeded changes). exit 0 held / 1 VIOLATION (minimised, replay-verified in a fresh process) / 2 cannot decide (build, worker crash, non-replayable). Known findings: /verif/known_findings.json. VERIF_SEED selects the seed block; VERIF_BUDGET_S overrides the per-worker search budget."
 }
 json.dump(m, open('/verif/MANIFEST.json','w'), indent=1)
 print("checks:", len(checks))
